@@ -443,6 +443,13 @@ def _is_open_paren_after_assignment(self, oToi):
     return False
 
 
+def _comment_between_first_and_last(lTokens):
+    for oToken in lTokens[1:-1]:
+        if isinstance(oToken, parser.comment):
+            return True
+    return False
+
+
 def _fix_first_paren_new_line(oViolation):
     lTokens = oViolation.get_tokens()
     dAction = oViolation.get_action()
@@ -452,6 +459,8 @@ def _fix_first_paren_new_line(oViolation):
         rules_utils.insert_carriage_return(lTokens, 0)
         oViolation.set_tokens(lTokens)
     elif dAction["action"] == "remove":
+        if _comment_between_first_and_last(lTokens):
+            return
         lNewTokens = []
         lNewTokens.append(lTokens[0])
         rules_utils.append_whitespace(lNewTokens)
@@ -468,6 +477,8 @@ def _fix_last_paren_new_line(oViolation):
         rules_utils.insert_carriage_return(lTokens, 1)
         oViolation.set_tokens(lTokens)
     elif dAction["action"] == "remove":
+        if _comment_between_first_and_last(lTokens):
+            return
         lNewTokens = []
         lNewTokens.append(lTokens[0])
         lNewTokens.append(lTokens[-1])
@@ -494,6 +505,8 @@ def _fix_open_paren_new_line(oViolation):
         rules_utils.append_whitespace(lTokens)
         oViolation.set_tokens(lTokens)
     elif dAction["action"] == "remove":
+        if _comment_between_first_and_last(lTokens):
+            return
         lNewTokens = []
         lNewTokens.append(lTokens[0])
         lNewTokens.append(lTokens[-1])
@@ -509,6 +522,8 @@ def _fix_close_paren_new_line(oViolation):
         rules_utils.insert_carriage_return(lTokens, 1)
         oViolation.set_tokens(lTokens)
     elif dAction["action"] == "remove":
+        if _comment_between_first_and_last(lTokens):
+            return
         lNewTokens = []
         lNewTokens.append(lTokens[0])
         lNewTokens.append(lTokens[-1])
@@ -526,6 +541,8 @@ def _fix_new_line_after_comma(oViolation):
             rules_utils.insert_carriage_return(lTokens, 1)
         oViolation.set_tokens(lTokens)
     elif dAction["action"] == "remove":
+        if _comment_between_first_and_last(lTokens):
+            return
         lNewTokens = []
         lNewTokens.append(lTokens[0])
         lNewTokens.append(parser.whitespace(" "))
